@@ -8,7 +8,8 @@ ORACLES = {
                          'returned_invariant': 'spec.user:error_ok'},
     # the (undecorated) send below the tracing / retrying wrappers: returns a response / None or raises anything,
     # including non-Exception BaseExceptions such as cancellation
-    'UserTransport': {'returns': 'any', 'raises': ('Exception', 'UserBaseException')},
+    'UserTransport': {'returns': 'opt:=pjrpc.common.v20:Response|=pjrpc.common.v20:BatchResponse',
+                      'raises': ('Exception', 'UserBaseException')},
     'UserJitter': {'returns': 'number', 'raises': ()},
     'UserCallback': {'returns': 'any', 'raises': ('Exception',)},
     'UserExcludeFn': {'returns': 'any', 'raises': ()},
@@ -21,6 +22,13 @@ FIELD_TYPES = {
     ('pjrpc.server.dispatcher:BaseDispatcher', '_registry'): '=pjrpc.server.dispatcher:MethodRegistry',
     ('pjrpc.server.dispatcher:BaseDispatcher', '_error_handlers'): 'dict[list[=UserErrorHandler]]',
     ('pjrpc.client.client:BaseAbstractClient', '_tracers'): 'list[=UserTracer]',
+    ('pjrpc.common.v20:Response', '_error'): 'pjrpc.common.exceptions:JsonRpcError|=pjrpc.common.common:UnsetType',
+    ('pjrpc.common.v20:BatchResponse', '_error'): 'pjrpc.common.exceptions:JsonRpcError|=pjrpc.common.common:UnsetType',
+    ('pjrpc.common.v20:BatchResponse', '_responses'): 'list[=pjrpc.common.v20:Response]',
+    ('pjrpc.common.v20:BatchRequest', '_requests'): 'list[=pjrpc.common.v20:Request]',
+    ('pjrpc.client.retry:RetryStrategy', 'backoff'): 'pjrpc.client.retry:Backoff',
+    ('pjrpc.client.retry:RetryStrategy', 'codes'): 'opt:=set',
+    ('pjrpc.client.retry:RetryStrategy', 'exceptions'): 'opt:=set',
 }
 
 # methods of abstract user objects (C19: tracers do not raise)
